@@ -43,6 +43,7 @@ def budget(tier):
 
 def gen_case(ch: Chooser, excl=()):
     n = ch.count(3, 5)
+    same_base = ch.bool(1, 3)
     files = {}
     shared = False
     defined = {}       # module -> list of (procname)
@@ -82,7 +83,10 @@ def gen_case(ch: Chooser, excl=()):
                     lines.append(f"    call {defined[u][0]}_{u}()")
             lines.append(f"  end subroutine {p}")
         lines.append(f"end module {m}")
-        files[f"src/f{i}.f90"] = "\n".join(lines) + "\n"
+        fname = f"f{i}.f90"
+        if same_base and i in (1, 2):
+            fname = f"{'ab'[i - 1]}/util.f90"          # equal base names in different directories
+        files[f"src/{fname}"] = "\n".join(lines) + "\n"
     allp = [p for ps in defined.values() for p in ps]
     shared = shared or len(set(allp)) < len(allp)
     main = ["program main", "  !! the program"] + [f"  use mod{i}, only: p{i} => {defined[i][0]}" for i in range(n)] + \
@@ -96,10 +100,10 @@ def gen_case(ch: Chooser, excl=()):
     other = {"src/zz.f90": "module leftover\n  !! from another project\n  integer :: q\nend module leftover\n",
              "pages/index.md": "title: Old pages\n\nstale\n",
              "project.md": site.project_file(dict(options, page_dir="./pages", externalize=True), "Other.\n")}
-    names = sorted(os.path.basename(k) for k in files if k.startswith("src/"))
+    names = sorted(k[len("src/"):] for k in files if k.startswith("src/"))
     perm_seed = ch.int(1000)
     return {"files": files, "other": other, "names": names, "perm_seed": perm_seed,
-            "classes": [f"files:{len(names)}"] + (["shared-names"] if shared else []),
+            "classes": [f"files:{len(names)}"] + (["shared-names"] if shared else []) + (["same-basename"] if same_base else []),
             "nontrivial": len(names) >= 3 and shared}
 
 
